@@ -934,6 +934,87 @@ fn directed_cfg_family(seed: u64, n: usize, max_len: usize) -> (Evidence, Vec<Vi
 	(ev, violations)
 }
 
+/// Directed family: under a small `max_response_body_size` one entry's own reply is too big. That entry is answered
+/// -32008 under its id INSIDE the array; the array made of the short replies and that small error object fits the limit
+/// (the harness computes its exact size and keeps a margin), so it must arrive as an array, every call executed.
+fn oversized_entry_family(seed: u64, n: usize) -> (Evidence, Vec<Violation>) {
+	let mut ev = Evidence::new("");
+	let mut violations = Vec::new();
+	const LIMIT: u32 = 420;
+	block_on_virtual(async {
+		let mut r = Rng::new(seed ^ 0x0e5);
+		let (srv, log) = server(Cfg::SmallResponse(LIMIT));
+		for i in 0..n {
+			let k = 1 + r.usize(3);
+			let big_at = r.usize(k + 1);
+			let mut entries: Vec<String> = Vec::new();
+			let mut replies: Vec<String> = Vec::new();
+			let mut ids: Vec<Value> = Vec::new();
+			for j in 0..=k {
+				let id = json!(i * 10 + j);
+				let method = *r.pick(&["echo_sync", "echo_async", "echo_blocking"]);
+				let params = if j == big_at { format!("[\"{}\"]", "B".repeat(450 + r.usize(450))) } else { format!("[{j},\"s{i}\"]") };
+				entries.push(format!("{{\"jsonrpc\":\"2.0\",\"id\":{id},\"method\":\"{method}\",\"params\":{params}}}"));
+				replies.push(if j == big_at {
+					format!("{{\"jsonrpc\":\"2.0\",\"id\":{id},\"error\":{{\"code\":-32008,\"message\":\"Response is too big\",\"data\":\"Exceeded max limit of {LIMIT}\"}}}}")
+				} else {
+					format!("{{\"jsonrpc\":\"2.0\",\"id\":{id},\"result\":{params}}}")
+				});
+				ids.push(id);
+			}
+			let array_len = replies.iter().map(|x| x.len() + 1).sum::<usize>() + 1;
+			if array_len + 40 > LIMIT as usize {
+				continue;
+			}
+			let batch = format!("[{}]", entries.join(","));
+			for transport in ["http", "ws"] {
+				let _ = log.take();
+				let frames: Vec<Vec<u8>> = if transport == "http" {
+					let rep = srv.http_post(batch.clone().into_bytes()).await;
+					vec![rep.body]
+				} else {
+					let ws = srv.ws().await.expect("ws");
+					ws_batch_probe(ws, &log, batch.as_bytes(), &format!("sentinel-oe-{seed}-{i}")).await.frames
+				};
+				let inv = if transport == "http" { log.take() } else { Vec::new() };
+				ev.eval();
+				ev.count("oversized_entry_batches", 1);
+				let w = json!({"family": "oversized-entry", "seed": seed, "transport": transport, "batch": b2s(batch.as_bytes()), "frames": frames.iter().map(|f| b2s(f)).collect::<Vec<_>>(), "array_len_if_kept": array_len, "limit": LIMIT});
+				let parsed: Option<Vec<Value>> = if frames.len() == 1 { serde_json::from_slice::<Value>(&frames[0]).ok().and_then(|v| v.as_array().cloned()) } else { None };
+				match parsed {
+					None => violations.push(Violation::new(
+						format!("array-replaced-although-it-fits/one-entry-too-big/{transport}"),
+						format!("the array with the oversized entry answered -32008 has {array_len} bytes (limit {LIMIT}), yet the reply is {:?}", frames.iter().map(|f| b2s(f)).collect::<Vec<_>>()),
+						w,
+					)),
+					Some(arr) => {
+						let mut ok = arr.len() == ids.len();
+						for (j, id) in ids.iter().enumerate() {
+							let Some(rp) = arr.iter().find(|x| x["id"] == *id) else {
+								ok = false;
+								continue;
+							};
+							if j == big_at {
+								ok &= rp["error"]["code"] == json!(-32008);
+							} else {
+								ok &= rp.get("result").is_some();
+							}
+						}
+						if !ok {
+							violations.push(Violation::new(format!("entries-mismatch/one-entry-too-big/{transport}"), format!("expected {} replies, the one at {big_at} being -32008: {}", ids.len(), b2s(&frames[0])), w));
+						} else if transport == "http" && inv.len() != ids.len() {
+							violations.push(Violation::new(format!("wrong-invocations/one-entry-too-big/{transport}"), format!("{} handler invocations for {} calls", inv.len(), ids.len()), w));
+						} else {
+							ev.nontrivial(&("oversized-entry", seed, i, transport));
+						}
+					}
+				}
+			}
+		}
+	});
+	(ev, violations)
+}
+
 fn main() {
 	let ctx = Ctx::from_env("C02", "exploration");
 	install_panic_capture(true);
@@ -984,6 +1065,14 @@ fn main() {
 		let n = ctx.tier.pick(1_600usize, 64_000);
 		let max_len = ctx.tier.pick(6, 8);
 		let res = run_parallel((0..16u64).collect(), |_, shard| directed_cfg_family(Rng::fork(seed, 5_000_000 + shard).next_u64(), n / 16, max_len));
+		for (e, v) in res {
+			ev.merge(e);
+			violations.extend(v);
+		}
+	}
+	if ctx.replay.is_none() {
+		let n = ctx.tier.pick(40usize, 2_000);
+		let res = run_parallel((0..16u64).collect(), |_, shard| oversized_entry_family(Rng::fork(seed, 6_000_000 + shard).next_u64(), n));
 		for (e, v) in res {
 			ev.merge(e);
 			violations.extend(v);
